@@ -6,9 +6,15 @@ COMMON_TRUST = [
     "fact extractor harness/cmd/factx (go/ast)",
 ]
 
+# which groups of the regenerated fact inventory (harness/cmd/factx) a property's model relies on:
+#   consts = package constants; sites = in-place write sites into nodes / package variables;
+#   vars = package-level variables; misc = Copy() hook clearing, go statements, sync/unsafe imports, hash binding
+FACTS = {4: ["consts", "sites", "misc"], 5: ["consts", "sites", "vars", "misc"], 6: ["consts", "sites", "vars"], 7: ["consts", "sites"],
+         12: ["consts", "sites"], 14: ["consts", "sites", "vars", "misc"], 17: ["consts", "sites"], 1: ["consts", "vars"]}
+
 def P(n, families, **kw):
     d = dict(module=f"ZtypV.Props.C{n:02d}", namespace=f"ZtypV.Props.C{n:02d}", families=families,
-             trusted=list(COMMON_TRUST))
+             trusted=list(COMMON_TRUST), facts=FACTS.get(n, ["consts"]))
     d.update(kw)
     return d
 
